@@ -1,14 +1,14 @@
 package props
 
 import (
-	"regexp"
 	"context"
 	"fmt"
 	"math"
-	"sync"
 	"os"
+	"regexp"
 	"strconv"
 	"strings"
+	"sync"
 	"sync/atomic"
 	"time"
 
